@@ -171,6 +171,11 @@ def oracle_staleq(case, impl):
     """the refresh leg through the whole daemon: every one of the k identical queries must reach the upstream as the client's
     bytes and be answered with the answer the upstream gave to THAT request"""
     f = case.split(" ")
+    if f[0] == "d53soak":
+        if impl != "answered=%s/%s" % (f[1], f[1]):
+            return ("one process, %s exchanges in a row with a plain-DNS upstream that answers each at once: %s (a complete upstream "
+                    "message arrived for every one of them)" % (f[1], impl))
+        return None
     if impl.startswith(("ERR", "PANIC", "TIMEOUT")) or " up=" not in impl:
         return "staleq did not complete: " + impl[:120]
     k, p = int(f[3]), unhex(f[4])
